@@ -15,7 +15,7 @@ from shapes import shapes, prod, fmt, fmt_lists
 
 ID = 'C07'
 LEVEL = 'proof'
-NGROUPS = 8
+NGROUPS = 10
 
 CT = {'i8': 'int8_t', 'u8': 'uint8_t', 'i16': 'int16_t', 'u16': 'uint16_t', 'i32': 'int32_t', 'u32': 'uint32_t',
       'i64': 'int64_t', 'u64': 'uint64_t', 'f32': 'float', 'f64': 'double'}
@@ -71,7 +71,8 @@ def op(name, arity, ref, types, dom, npf=None, ulps=0, cls=None, vcall=None, eca
     args = ['x', 'y', 'z'][:arity]
     pa = ''.join(', p%d' % i for i in range(len(params)))
     base = header or name
-    d = dict(name=name, arity=arity, ref=ref, types=[tuple(t.split(',')) for t in types], dom=dom, npf=npf, ulps=ulps, cls=cls,
+    d = dict(name=name, arity=arity, ref=ref, types=[tuple(t.rstrip('*').split(',')) for t in types],
+             qtypes=[tuple(t.split(',')) for t in types if not t.endswith('*')], dom=dom, npf=npf, ulps=ulps, cls=cls,
              vcall=vcall or 'view::%s(%s%s)' % (base, ', '.join(args), pa),
              ecall=ecall or 'na::%s(%s%s)' % (base, ', '.join(args), pa),
              hdr=hdr or _hdr('activations' if act else 'ufuncs', base), params=tuple(params), header=base, act=act, outer=outer,
@@ -81,6 +82,17 @@ def op(name, arity, ref, types, dom, npf=None, ulps=0, cls=None, vcall=None, eca
 
 
 F = ['f32', 'f64']
+_alt = [0]
+
+
+def FT(name, both=False):
+    """float element types of an op; `*` = instantiated in the thorough tier only (quick tier alternates f32 / f64 between ops)"""
+    if both:
+        return ['f32', 'f64']
+    _alt[0] += 1
+    return ['f32', 'f64*'] if _alt[0] % 2 else ['f32*', 'f64']
+
+
 # -- unary math (libm forwards): reference = the std:: function on the same type, bit-identical
 for n, std, dom in [('exp', 'exp', 'f'), ('exp2', 'exp2', 'f'), ('expm1', 'expm1', 'f'), ('log', 'log', 'pos'), ('log2', 'log2', 'pos'),
                     ('log10', 'log10', 'pos'), ('log1p', 'log1p', 'pos'), ('sqrt', 'sqrt', 'nonneg'), ('cbrt', 'cbrt', 'f'),
@@ -88,9 +100,9 @@ for n, std, dom in [('exp', 'exp', 'f'), ('exp2', 'exp2', 'f'), ('expm1', 'expm1
                     ('arctan', 'atan', 'f'), ('sinh', 'sinh', 'f'), ('cosh', 'cosh', 'f'), ('tanh', 'tanh', 'f'), ('arcsinh', 'asinh', 'f'),
                     ('arccosh', 'acosh', 'ge1'), ('arctanh', 'atanh', 'openunit'), ('ceil', 'ceil', 'f'), ('floor', 'floor', 'f'),
                     ('trunc', 'trunc', 'f'), ('rint', 'rint', 'half'), ('fabs', 'fabs', 'f')]:
-    op(n, 1, 'return std::%s(x);' % std, F, [dom], npf=getattr(np, n), cls='same')
+    op(n, 1, 'return std::%s(x);' % std, FT(n, n in ('exp', 'log', 'sqrt', 'sin', 'tanh', 'floor', 'rint', 'fabs')), [dom], npf=getattr(np, n), cls='same')
 for n in ['isnan', 'isinf', 'isfinite', 'signbit']:
-    op(n, 1, 'return std::%s(x);' % n, F, ['special'], npf=getattr(np, n), cls='bool')
+    op(n, 1, 'return std::%s(x);' % n, FT(n), ['special'], npf=getattr(np, n), cls='bool')
 op('negative', 1, 'return -x;', ['i32', 'i8', 'f32', 'f64'], ['i'], npf=np.negative, cls='prom')
 op('positive', 1, 'return +x;', ['i32', 'i8', 'f64'], ['i'], npf=np.positive, cls='prom')
 op('square', 1, 'return x * x;', ['i32', 'i8', 'f32', 'f64'], ['small'], npf=np.square, cls='sq')
@@ -98,24 +110,24 @@ op('reciprocal', 1, 'return 1 / x;', ['f32', 'f64', 'i32'], ['nonzero'], npf=lam
 op('invert', 1, 'return ~x;', ['i32', 'i8', 'u8', 'i64'], ['nonnegi'], npf=lambda a: -a - 1, cls='prom')
 op('logical_not', 1, 'return !(x != 0);', ['i32', 'u8', 'f32'], ['zeros'], npf=np.logical_not, cls='bool')
 PI = 'static_cast<T>(3.14159265358979323846264338327950288L)'
-op('deg2rad', 1, 'return x * (%s / 180);' % PI, F, ['f'], npf=np.deg2rad, ulps=1, cls='same')
-op('radians', 1, 'return x * (%s / 180);' % PI, F, ['f'], npf=np.radians, ulps=1, cls='same')
-op('degrees', 1, 'return x * (static_cast<T>(180) / %s);' % PI, F, ['f'], npf=np.degrees, ulps=1, cls='same')
-op('rad2deg', 1, 'return x * (static_cast<T>(180) / %s);' % PI, F, ['f'], npf=np.rad2deg, ulps=1, cls='same')
+op('deg2rad', 1, 'return x * (%s / 180);' % PI, FT('deg2rad'), ['f'], npf=np.deg2rad, ulps=1, cls='same')
+op('radians', 1, 'return x * (%s / 180);' % PI, FT('radians'), ['f'], npf=np.radians, ulps=1, cls='same')
+op('degrees', 1, 'return x * (static_cast<T>(180) / %s);' % PI, FT('degrees'), ['f'], npf=np.degrees, ulps=1, cls='same')
+op('rad2deg', 1, 'return x * (static_cast<T>(180) / %s);' % PI, FT('rad2deg'), ['f'], npf=np.rad2deg, ulps=1, cls='same')
 
 # -- binary arithmetic
-op('add', 2, 'return x + y;', ['i32,i32', 'f32,f32', 'f64,f64', 'i8,i8', 'u8,u8', 'i32,f64', 'i64,i32', 'i16,f32'], ['i', 'i'],
+op('add', 2, 'return x + y;', ['i32,i32', 'f32,f32', 'f64,f64*', 'i8,i8', 'u8,u8*', 'i32,f64', 'i64,i32*', 'i16,f32'], ['i', 'i'],
    npf=np.add, cls='arith', outer=True)
 op('subtract', 2, 'return x - y;', ['i32,i32', 'f32,f32', 'f64,f32', 'i8,i16'], ['i', 'i'], npf=np.subtract, cls='arith', outer=True)
-op('multiply', 2, 'return x * y;', ['i32,i32', 'f64,f64', 'i8,i8', 'u8,i32', 'f32,i32'], ['small', 'small'], npf=np.multiply, cls='arith', outer=True)
+op('multiply', 2, 'return x * y;', ['i32,i32', 'f64,f64', 'i8,i8*', 'u8,i32', 'f32,i32*'], ['small', 'small'], npf=np.multiply, cls='arith', outer=True)
 op('divide', 2, 'return x / y;', ['f32,f32', 'f64,f64', 'i32,i32', 'f64,i32'], ['i', 'nonzero'],
    npf=lambda a, b: np.trunc(a / b) if (a.dtype.kind in 'iu' and b.dtype.kind in 'iu') else a / b, cls='arith')
 op('mod', 2, 'return x % y;', ['i32,i32', 'i8,i8', 'u8,u8'], ['i', 'nonzero'], npf=np.fmod, cls='arith',
    note='C++ % (sign of the dividend) = numpy.fmod, not numpy.mod')
 op('fmod', 2, 'return std::fmod(x, y);', ['f32,f32', 'f64,f64'], ['f', 'nonzero'], npf=np.fmod, cls='arith', outer=True)
 op('power', 2, 'return std::pow(x, y);', ['f32,f32', 'f64,f64', 'f64,i32'], ['pos', 'smallexp'], npf=np.power, cls='fmath2', rtol=1e-5)
-op('maximum', 2, 'return x > y ? x : y;', ['i32,i32', 'f32,f32', 'f64,f64', 'i8,i8', 'i32,f64'], ['i', 'i'], npf=np.maximum, cls='cond', outer=True)
-op('minimum', 2, 'return x < y ? x : y;', ['i32,i32', 'f32,f32', 'f64,f64', 'i8,i8', 'i32,f64'], ['i', 'i'], npf=np.minimum, cls='cond', outer=True)
+op('maximum', 2, 'return x > y ? x : y;', ['i32,i32', 'f32,f32*', 'f64,f64', 'i8,i8', 'i32,f64'], ['i', 'i'], npf=np.maximum, cls='cond', outer=True)
+op('minimum', 2, 'return x < y ? x : y;', ['i32,i32', 'f32,f32', 'f64,f64*', 'i8,i8*', 'i32,f64'], ['i', 'i'], npf=np.minimum, cls='cond', outer=True)
 op('fmax', 2, 'return std::fmax(x, y);', ['f32,f32', 'f64,f64'], ['fnan', 'f'], npf=np.fmax, cls='arith', outer=True)
 op('fmin', 2, 'return std::fmin(x, y);', ['f32,f32', 'f64,f64'], ['fnan', 'f'], npf=np.fmin, cls='arith', outer=True)
 op('arctan2', 2, 'return std::atan2(x, y);', ['f32,f32', 'f64,f64'], ['f', 'f'], npf=np.arctan2, cls='arith')
@@ -123,13 +135,15 @@ op('hypot', 2, 'return std::hypot(x, y);', ['f32,f32', 'f64,f64'], ['f', 'f'], n
 op('ldexp', 2, 'return std::ldexp(x, y);', ['f32,i32', 'f64,i32'], ['f', 'smallexp'], npf=np.ldexp, cls='same')
 # -- bitwise / shifts
 for n, sym, f in [('bitwise_and', '&', np.bitwise_and), ('bitwise_or', '|', np.bitwise_or), ('bitwise_xor', '^', np.bitwise_xor)]:
-    op(n, 2, 'return x %s y;' % sym, ['i32,i32', 'u8,u8', 'i8,i8', 'i64,i32', 'u32,u32'], ['nonnegi', 'nonnegi'], npf=f, cls='arith')
-op('left_shift', 2, 'return x << y;', ['i32,i32', 'u8,u8', 'i64,i32', 'u32,u32'], ['nonnegi', 'shift'], npf=np.left_shift, cls='prom', outer=True)
-op('right_shift', 2, 'return x >> y;', ['i32,i32', 'u8,u8', 'i64,i32', 'u32,u32'], ['nonnegi', 'shift'], npf=np.right_shift, cls='prom', outer=True)
+    op(n, 2, 'return x %s y;' % sym, ['i32,i32', 'u8,u8', 'i8,i8*', 'i64,i32*', 'u32,u32'] if n == 'bitwise_and' else ['i32,i32', 'u8,u8*', 'i8,i8', 'i64,i32*', 'u32,u32*'],
+       ['nonnegi', 'nonnegi'], npf=f, cls='arith')
+op('left_shift', 2, 'return x << y;', ['i32,i32', 'u8,u8', 'i64,i32*', 'u32,u32*'], ['nonnegi', 'shift'], npf=np.left_shift, cls='prom', outer=True)
+op('right_shift', 2, 'return x >> y;', ['i32,i32', 'u8,u8*', 'i64,i32', 'u32,u32*'], ['nonnegi', 'shift'], npf=np.right_shift, cls='prom', outer=True)
 # -- comparison / logical
 for n, sym, f in [('equal', '==', np.equal), ('not_equal', '!=', np.not_equal), ('less', '<', np.less), ('less_equal', '<=', np.less_equal),
                   ('greater', '>', np.greater), ('greater_equal', '>=', np.greater_equal)]:
-    op(n, 2, 'return x %s y;' % sym, ['i32,i32', 'f32,f32', 'i32,f64', 'u8,u8', 'i8,i64'], ['tiny', 'tiny'], npf=f, cls='bool')
+    op(n, 2, 'return x %s y;' % sym, ['i32,i32', 'f32,f32', 'i32,f64'] + (['u8,u8', 'i8,i64'] if n in ('less', 'equal') else ['u8,u8*', 'i8,i64*']),
+       ['tiny', 'tiny'], npf=f, cls='bool')
 op('logical_and', 2, 'return (x != 0) && (y != 0);', ['i32,i32', 'f32,i32', 'u8,u8'], ['zeros', 'zeros'], npf=np.logical_and, cls='bool')
 op('logical_or', 2, 'return (x != 0) || (y != 0);', ['i32,i32', 'f32,i32', 'u8,u8'], ['zeros', 'zeros'], npf=np.logical_or, cls='bool')
 op('logical_xor', 2, 'return (x != 0) != (y != 0);', ['i32,i32', 'f32,i32', 'u8,u8'], ['zeros', 'zeros'], npf=np.logical_xor, cls='bool')
@@ -159,30 +173,30 @@ op('clip', 3, 'return x < y ? y : (x > z ? z : x);', ['i32,i32,i32', 'f32,f32,f3
 # -- activations
 A = dict(act=True)
 op('relu', 1, 'return static_cast<T>(x > 0 ? x : 0);', ['f32', 'f64', 'i32'], ['f'], npf=lambda a: np.maximum(a, 0), cls='same', **A)
-op('relu6', 1, 'return x < 0 ? T(0) : (x > 6 ? T(6) : x);', F, ['wide'], npf=lambda a: np.clip(a, 0, 6), cls='same', **A)
+op('relu6', 1, 'return x < 0 ? T(0) : (x > 6 ? T(6) : x);', FT('relu6'), ['wide'], npf=lambda a: np.clip(a, 0, 6), cls='same', **A)
 op('leaky_relu', 1, 'return x >= 0 ? x : p0 * x;', F, ['f'], npf=lambda a, p: np.where(a >= 0, a, np.float32(p[0]) * a), cls='actf', params=[0.01], ulps=0, **A)
-op('prelu', 1, 'return static_cast<T>(x >= 0 ? x : p0 * x);', F, ['f'], npf=lambda a, p: np.where(a >= 0, a, np.float32(p[0]) * a), cls='same', params=[0.25], **A)
-op('elu', 1, 'return x > 0 ? x : p0 * (std::exp(x) - 1);', F, ['f'], npf=lambda a, p: np.where(a > 0, a, np.float32(p[0]) * (np.exp(a) - 1)), cls='actf', params=[1.0], ulps=2, **A)
+op('prelu', 1, 'return static_cast<T>(x >= 0 ? x : p0 * x);', FT('prelu'), ['f'], npf=lambda a, p: np.where(a >= 0, a, np.float32(p[0]) * a), cls='same', params=[0.25], **A)
+op('elu', 1, 'return x > 0 ? x : p0 * (std::exp(x) - 1);', FT('elu'), ['f'], npf=lambda a, p: np.where(a > 0, a, np.float32(p[0]) * (np.exp(a) - 1)), cls='actf', params=[1.0], ulps=2, **A)
 op('celu', 1, 'return std::max(T(0), x) + std::min(T(0), p0 * (std::exp(x / p0) - 1));', ['f32'], ['f'],
    npf=lambda a, p: np.maximum(0, a) + np.minimum(0, np.float32(p[0]) * (np.exp(a / np.float32(p[0])) - 1)), cls='actf', params=[0.5], ulps=2, **A)
 op('selu', 1, 'return static_cast<T>(1.0507009873554804934193349852946) * (std::max(x, T(0)) + std::min(static_cast<T>(1.6732632423543772848170429916717) * (std::exp(x) - 1), T(0)));',
    F, ['f'], npf=lambda a: 1.0507009873554805 * (np.maximum(a, 0) + np.minimum(1.6732632423543772 * (np.exp(a) - 1), 0)), cls='same', ulps=2, **A)
-op('sigmoid', 1, 'return T(1) / (T(1) + std::exp(-x));', F, ['f'], npf=lambda a: 1 / (1 + np.exp(-a)), cls='same', ulps=2, **A)
-op('silu', 1, 'return x * (T(1) / (T(1) + std::exp(-x)));', F, ['f'], npf=lambda a: a / (1 + np.exp(-a)), cls='same', ulps=2, **A)
-op('log_sigmoid', 1, 'return std::log(T(1) / (T(1) + std::exp(-x)));', F, ['f'], npf=lambda a: np.log(1 / (1 + np.exp(-a))), cls='same', ulps=2, rtol=1e-5, **A)
+op('sigmoid', 1, 'return T(1) / (T(1) + std::exp(-x));', FT('selu'), ['f'], npf=lambda a: 1 / (1 + np.exp(-a)), cls='same', ulps=2, **A)
+op('silu', 1, 'return x * (T(1) / (T(1) + std::exp(-x)));', FT('silu'), ['f'], npf=lambda a: a / (1 + np.exp(-a)), cls='same', ulps=2, **A)
+op('log_sigmoid', 1, 'return std::log(T(1) / (T(1) + std::exp(-x)));', FT('log_sigmoid'), ['f'], npf=lambda a: np.log(1 / (1 + np.exp(-a))), cls='same', ulps=2, rtol=1e-5, **A)
 op('softplus', 1, 'T t = x * p0; return t > p1 ? x : static_cast<T>(std::log(1 + std::exp(t)) / p0);', F, ['wide'],
    npf=lambda a, p: np.where(a * p[0] > p[1], a, np.log1p(np.exp(a * p[0])) / p[0]), cls='same', params=[1.0, 20.0], ulps=2, rtol=1e-5, **A)
-op('softsign', 1, 'return x / (1 + (x > 0 ? x : -x));', F, ['f'], npf=lambda a: a / (1 + np.abs(a)), cls='same', ulps=2, **A)
-op('softshrink', 1, 'return static_cast<T>(x > p0 ? x - p0 : (x < -p0 ? x + p0 : 0));', F, ['f'],
+op('softsign', 1, 'return x / (1 + (x > 0 ? x : -x));', FT('softsign'), ['f'], npf=lambda a: a / (1 + np.abs(a)), cls='same', ulps=2, **A)
+op('softshrink', 1, 'return static_cast<T>(x > p0 ? x - p0 : (x < -p0 ? x + p0 : 0));', FT('softshrink'), ['f'],
    npf=lambda a, p: np.where(a > p[0], a - p[0], np.where(a < -p[0], a + p[0], 0)), cls='same', params=[0.5], ulps=0, **A)
-op('hardshrink', 1, 'return static_cast<T>((x > p0 || x < -p0) ? x : 0);', F, ['f'],
+op('hardshrink', 1, 'return static_cast<T>((x > p0 || x < -p0) ? x : 0);', FT('hardshrink'), ['f'],
    npf=lambda a, p: np.where(np.abs(a) > p[0], a, 0), cls='same', params=[0.5], ulps=1, **A)
 op('hardtanh', 1, 'return static_cast<T>(x < p0 ? p0 : (x > p1 ? p1 : x));', F, ['f'], npf=lambda a, p: np.clip(a, p[0], p[1]), cls='same', params=[-1.0, 1.0], **A)
-op('hardswish', 1, 'return x <= -3 ? T(0) : (x >= 3 ? x : x * (x + 3) / 6);', F, ['wide'],
+op('hardswish', 1, 'return x <= -3 ? T(0) : (x >= 3 ? x : x * (x + 3) / 6);', FT('hardswish'), ['wide'],
    npf=lambda a: np.where(a <= -3, 0, np.where(a >= 3, a, a * (a + 3) / 6)), cls='same', ulps=1, **A)
-op('mish', 1, 'T sp = x > 20 ? x : std::log(1 + std::exp(x)); return x * std::tanh(sp);', F, ['f'],
+op('mish', 1, 'T sp = x > 20 ? x : std::log(1 + std::exp(x)); return x * std::tanh(sp);', FT('mish'), ['f'],
    npf=lambda a: a * np.tanh(np.log1p(np.exp(a))), cls='same', ulps=4, rtol=1e-5, **A)
-op('tanhshrink', 1, 'return x - std::tanh(x);', F, ['f'], npf=lambda a: a - np.tanh(a), cls='same', ulps=2, rtol=1e-4, **A)
+op('tanhshrink', 1, 'return x - std::tanh(x);', FT('tanhshrink'), ['f'], npf=lambda a: a - np.tanh(a), cls='same', ulps=2, rtol=1e-4, **A)
 
 # ops evaluated additionally on extreme element values (type minima/maxima, infinities, signed zero, denormals): no overflow possible
 EXTREMES = {'equal', 'not_equal', 'less', 'less_equal', 'greater', 'greater_equal', 'maximum', 'minimum', 'fmax', 'fmin',
@@ -249,19 +263,23 @@ TRUSTED = ['op table in lib/props/c07.py (hand-curated reference expressions)']
 # ---------------------------------------------------------------------------------------------- code generation
 
 
-def groups():
+def types_of(d, tier):
+    return d['qtypes'] if tier == 'quick' else d['types']
+
+
+def groups(tier):
     """balanced split of the table into NGROUPS translation units"""
-    items = sorted(TABLE, key=lambda d: -(len(d['types']) * (2 if d['outer'] else 1)))
+    items = sorted(TABLE, key=lambda d: -(len(types_of(d, tier)) * (2 if d['outer'] else 1)))
     gs = [[] for _ in range(NGROUPS)]
     load = [0] * NGROUPS
     for d in items:
         k = load.index(min(load))
         gs[k].append(d)
-        load[k] += len(d['types']) * (2 if d['outer'] else 1) * (2 if d['arity'] == 3 else 1)
+        load[k] += len(types_of(d, tier)) * (2 if d['outer'] else 1) * (2 if d['arity'] == 3 else 1)
     return gs
 
 
-def gen_tu(ds):
+def gen_tu(ds, tier):
     inc = []
     for d in ds:
         for h in d['hdr']:
@@ -279,7 +297,7 @@ def gen_tu(ds):
         xs = ['x', 'y', 'z'][:ar]
         cargs = ', '.join('const auto& %s' % v for v in xs)
         vargs = ', '.join('auto %s' % v for v in xs)
-        for ts in d['types']:
+        for ts in types_of(d, tier):
             ctypes = ', '.join(CT[t] for t in ts)
             runner = {1: 'run1', 2: 'run2', 3: 'run3'}[ar]
             L.append('    if (op=="uf" && name=="%s" && t=="%s") return %s<%s>(a,' % (d['name'], ','.join(ts), runner, ctypes))
@@ -308,10 +326,11 @@ def harness_specs(tier):
     gdir = os.path.join(BUILD, 'gen_c07')
     os.makedirs(gdir, exist_ok=True)
     specs = []
-    for k, ds in enumerate(groups()):
-        name = 'h_c07_%d' % k
+    _group_of.clear()
+    for k, ds in enumerate(groups(tier)):
+        name = 'h_c07%s_%d' % (tier[0], k)
         src = os.path.join(gdir, name + '.cpp')
-        text = gen_tu(ds)
+        text = gen_tu(ds, tier)
         if not os.path.exists(src) or open(src).read() != text:
             with open(src, 'w') as f:
                 f.write(text)
@@ -548,11 +567,10 @@ def gen(tier, rng):
 
 def _gen(tier, rng):
     quick = tier == 'quick'
-    if not _group_of:
-        harness_specs(tier)
-    reps = 1 if quick else 3
+    harness_specs(tier)
+    reps = 1 if quick else 5
     for d in TABLE:
-        for ts in d['types']:
+        for ts in types_of(d, tier):
             for _ in range(reps):
                 if d['arity'] == 1:
                     for s in UNARY:
@@ -604,9 +622,9 @@ def _gen(tier, rng):
                        tags=['op=add', 'provenance', 'incompatible' if orc == 'nothing' else 'compatible', 'ranks=%d/%d' % (len(a), len(b))])
     # random larger shapes for a rotating subset of binary ops
     binops = [d for d in TABLE if d['arity'] == 2]
-    for t in range(300 if quick else 3000):
+    for t in range(300 if quick else 8000):
         d = binops[t % len(binops)]
-        ts = d['types'][t // len(binops) % len(d['types'])]
+        ts = types_of(d, tier)[t // len(binops) % len(types_of(d, tier))]
         r = rng.randint(1, 5)
         full = [rng.choice([1, 2, 2, 3, 4]) for _ in range(r)]
         while prod(full) > 200:
